@@ -160,6 +160,15 @@ def _gen_prt(rng, max_tables):
             sc += '*'
         aal = 'ncbieaa  "%s",' % aa
         scl = 'sncbieaa "%s"' % sc
+        q = rng.random()
+        if q < .06:                                        # other spellings filter_line accepts: no quotes, quotes in the middle
+            aal = 'ncbieaa %s' % aa
+        elif q < .10:
+            aal = 'ncbieaa  "%s" "%s",' % (aa[:20], aa[20:])
+        elif q < .14:
+            scl = 'sncbieaa %s ,' % sc
+        elif q < .17:
+            aal = 'ncbieaa,"%s"  , -- ncbieaa' % aa
         body = [idl, aal, scl]
         q = rng.random()
         if q < .06:
@@ -678,6 +687,11 @@ def extra_checks(rng, tier, cov):
         for how in ('Attr.copy', 'deepcopy'):
             mine = gcode(t).copy() if how == 'Attr.copy' else _copy.deepcopy(gcode(t))
             l0 = light(t)
+            wrong = [f for f in ('starts', 'stops', 'astarts', 'astops') if type(getattr(mine, f, None)) is not set]
+            if wrong:
+                yield {'case': {'id': t, 'fields': wrong}, 'impl': None, 'noshrink': True,
+                       'spec': 'gcode(%d).%s is a %s, not a set' % (t, wrong[0], type(getattr(mine, wrong[0], None)).__name__)}
+                break
             mine.starts.add('NNN'); mine.stops.add('NNN'); mine.astarts.add('NNN'); mine.astops.add('NNN')
             mine.starts.discard('ATG'); mine.stops.intersection_update({'TAA'})
             mine.tt['NNN'] = '?'; mine.tt.pop('AAA', None)
@@ -712,6 +726,11 @@ def search_cases(broken, rng):
         yield {'id': t, 'ttinv': True}
         for c in itertools.product(LETTERS, repeat=3):
             yield {'id': t, 'codon': ''.join(c)}
+
+def valid_case(c):
+    """shrinking: a case over the whole IUPAC alphabet costs seconds per evaluation inside Coq - report it as it is"""
+    return not (c.get('conv') and c.get('codes') == 'CODES')
+
 
 MODELLED_FUNCS = {'sugar/data/__init__.py': ['gcode'], 'sugar/data/data_gcode/convert.py': ['generate_gc', 'filter_line']}
 NO_SHRINK_KEYS = {'ttinv', 'id', 'conv', 'codes', 'gcalls'}
